@@ -73,6 +73,17 @@ def plant(D):
                         yield mut(lambda D2, m2, i2, c2, cs=cs: c2.__setitem__("t", Cat(Slc({"k": "fsig", "n": cs["n"], "w": cs["w"], "owner": "design:" + i2["of"]["ref"]}, R(1, None)),
                                                                                        Slc({"k": "fsig", "n": cs["n"], "w": cs["w"], "owner": "design:" + i2["of"]["ref"]}, I(0)))),
                                   "foreign_inside_term")
+        for s in sigs[:1]:
+            # an orphan that is a COPY of one of the module's own signals (it still looks like the original)
+            yield mut(lambda D2, m2, i2, c2, s=s: c2.__setitem__("t", {"k": "fsig", "n": s["n"], "w": s["w"], "owner": "copyof"}), "foreign_or_orphan_signal")
+        if inst["of"]["k"] == "ext" and inst["kind"] == "inst" and ci == 0:
+            # the external device got one more port after it was made; the instance does not connect it
+            def lateport(D2, m2, i2, c2):
+                ref = i2["of"]["ref"]
+                D2["leaves"] = dict(D2["leaves"])
+                D2["leaves"][ref + "_late"] = list(D2["leaves"][ref]) + [{"n": "zz_late", "w": 1, "late": True}]
+                i2["of"] = {"k": "ext", "ref": ref + "_late"}
+            yield mut(lateport, "missing_connection")
         # an anonymous bundle with a member the port's bundle does not have
         if conn["t"]["k"] == "anon" and sigs:
             yield mut(lambda D2, m2, i2, c2: c2["t"]["mem"].append({"n": "zz", "t": Sig(sigs[0]["n"])}), "ref_to_missing_bundle_member")
